@@ -670,6 +670,15 @@ func (ex *Executor) ptrOf(v Val) *Ptr {
 func cellName(s Sort) string { return "cell." + string(s) }
 func elemName(s Sort) string { return "E." + string(s) }
 
+// elemNameT: element heap of arrays with this element type. Byte arrays live in their own map: without unsafe,
+// a []byte (or [n]byte) can never share memory with an array of another element type.
+func elemNameT(elem types.Type) string {
+	if b, ok := elem.Underlying().(*types.Basic); ok && (b.Kind() == types.Uint8 || b.Kind() == types.Byte) {
+		return "E.Int.u8"
+	}
+	return elemName(sortOf(elem))
+}
+
 func (ex *Executor) subRef(st *State, owner types.Type, fname string, base *Term) *Term {
 	return App(subFnName(owner, fname), SInt, base)
 }
@@ -752,7 +761,7 @@ func (ex *Executor) load(st *State, pv Val) Val {
 		return ex.loadField(st, nil, true, p.Owner, f, p.Base)
 	case PElem:
 		srt := sortOf(p.Elem)
-		e := st.heapGet(elemName(srt), arrayOf(arrayOf(srt)))
+		e := st.heapGet(elemNameT(p.Elem), arrayOf(arrayOf(srt)))
 		v := Val{T: Select(Select(e, p.Arr), p.Idx), Ty: p.Elem}
 		ex.loadedFacts(st, v)
 		return ex.recover(v)
@@ -850,7 +859,7 @@ func (ex *Executor) store(st *State, pv Val, v Val) {
 		ex.storeField(st, p.Owner, f, p.Base, v)
 	case PElem:
 		srt := sortOf(p.Elem)
-		name := elemName(srt)
+		name := elemNameT(p.Elem)
 		e := st.heapGet(name, arrayOf(arrayOf(srt)))
 		st.heapSet(name, Store(e, p.Arr, Store(Select(e, p.Arr), p.Idx, ex.asTerm(st, v))))
 	case PFieldOfElem:
@@ -927,9 +936,9 @@ func (ex *Executor) sliceElem(st *State, heap map[string]*Term, id *Term, i *Ter
 	srt := sortOf(elemTy)
 	var e *Term
 	if heap == nil {
-		e = st.heapGet(elemName(srt), arrayOf(arrayOf(srt)))
+		e = st.heapGet(elemNameT(elemTy), arrayOf(arrayOf(srt)))
 	} else {
-		e = heapGetIn(heap, elemName(srt), arrayOf(arrayOf(srt)))
+		e = heapGetIn(heap, elemNameT(elemTy), arrayOf(arrayOf(srt)))
 	}
 	v := Val{T: Select(Select(e, ex.sarr(id)), Add(ex.soff(id), i)), Ty: elemTy}
 	ex.loadedFacts(st, v)
